@@ -114,7 +114,8 @@ void rulesRun(uint64_t i, Ctx &ctx)
     auto logger = Printer::create();
     logger->Logger::pFunc()->addIssue(issue);
     auto verdict = loggerIncoherence(logger);
-    if ((verdict.has_value()) != (!hOk || !uOk)) ctx.violation("HARNESS:loggerIncoherence-verdict-differs-from-direct-observation", {{"rule", i / 3}, {"verdict", verdict.value_or("coherent")}});
+    if (verdict.has_value() && hOk && uOk) ctx.violation("C15:logger-incoherent:logger-holding-one-issue", {{"rule", i / 3}, {"level", levelName(level)}, {"what", *verdict}});
+    if (!verdict.has_value() && (!hOk || !uOk)) ctx.violation("HARNESS:loggerIncoherence-missed-a-throwing-heading-or-url", {{"rule", i / 3}});
     if (logger->issueCount() != 1 || logger->issue(0) != issue) ctx.violation("rules:logger-does-not-return-the-added-issue", rulesShow(i));
 }
 
